@@ -78,3 +78,19 @@ Definition any_err (o : outcome) : bool :=
   end.
 Definition fcount_nontrivial (cases : list fcase) : nat :=
   count_true (map (fun k : fcase => let '(c, r, _) := k in any_err (extract c r)) cases).
+
+(* Stack.error as extract_child builds it from the list of saved errors: None if there is none,
+   the exception itself if there is exactly one, an ExceptionGroup of all of them otherwise.  The
+   harness observes a Stack through [errs_of] (error -> list), the inverse of this projection. *)
+Inductive eshape := ENoError | ESingle (e : err) | EGroup (l : list err).
+Definition error_of (l : list err) : eshape :=
+  match l with [] => ENoError | [e] => ESingle e | _ => EGroup l end.
+Definition errs_of (s : eshape) : list err :=
+  match s with ENoError => [] | ESingle e => [e] | EGroup l => l end.
+Definition s_error (s : stack) : eshape := error_of (s_errs s).
+
+(* the child Stacks hanging below the frames of a Stack (one level) *)
+Definition cout_kids (x : cout) : list stack := match x with COut _ ks => ks end.
+Definition couts_kids (l : list cout) : list stack := flat_map cout_kids l.
+Definition fouts_kids (l : list fout) : list stack := flat_map (fun x => couts_kids (f_cx x)) l.
+Definition s_children (s : stack) : list stack := fouts_kids (s_frames s).
